@@ -89,7 +89,7 @@ def r1(ctx, F):
                                 continue
                             a0 = pfl.origins(pb.blocks[o.bb]['term']['args'][0])
                             a1 = pfl.origins(pb.blocks[o.bb]['term']['args'][1])
-                            root_ok = all((x.kind == 'upvar' and pb.upvars.get(int(x.key)) == rootname) or (x.kind == 'param' and pb.local_name(x.key) == rootname) for x in a0) and bool(a0)
+                            root_ok = all((x.kind == 'upvar' and canon(F, pb, pb.upvars.get(int(x.key))) == rootname) or (x.kind == 'param' and canon(F, pb, pb.local_name(x.key)) == rootname) for x in a0) and bool(a0)
                             rel_ok = bool(a1) and all(x.kind == 'call' and x.key == 'std::iter::Iterator::next' for x in a1) and from_plan_transfer(pfl, a1)
                             good = good and root_ok and rel_ok
                         else:
@@ -104,8 +104,8 @@ def r1(ctx, F):
                             holes = [p for p in site['pieces'] if not isinstance(p, str)]
                             lits = [p for p in site['pieces'] if isinstance(p, str)]
                             a = site['args']
-                            shape_ok = len(holes) == 2 and lits == ['/'] and a[holes[0]['arg']].get('name') == rootname and \
-                                a[holes[1]['arg']].get('k') == 'mcall' and a[holes[1]['arg']]['method'] == 'display' and a[holes[1]['arg']]['recv'].get('name') == 'rel'
+                            shape_ok = len(holes) == 2 and lits == ['/'] and canon(F, pb, a[holes[0]['arg']].get('name')) == rootname and \
+                                a[holes[1]['arg']].get('k') == 'mcall' and a[holes[1]['arg']]['method'] == 'display' and plan_loop_var(pb, pfl, a[holes[1]['arg']]['recv'].get('name'))
                             good = good and shape_ok
                     if not good:
                         ok = False
@@ -114,6 +114,16 @@ def r1(ctx, F):
                           'the delivery call does not get paths derived from the roots and the same plan.transfer entry: %s' % '; '.join(why), term_loc(body, cb))
         if not found:
             ctx.bad('C04.R1', '%s:%s-exists' % (fn.split('::')[-1], callee_path.split('::')[-1]), '%s no longer delivers through %s' % (fn, callee_path), None)
+
+
+def plan_loop_var(body, fl, name):
+    """the source-level variable `name` is the loop variable over plan.transfer (whatever it is called)"""
+    ls = [l for l in range(len(body.locals)) if name and body.local_name(l) == name]
+    for l in ls:
+        os_ = [o for o in fl.origins(l) if o.kind != 'comb']
+        if os_ and all(o.kind == 'call' and o.key == 'std::iter::Iterator::next' for o in os_) and from_plan_transfer(fl, os_):
+            return True
+    return False
 
 
 def from_plan_transfer(fl, next_origins):
@@ -211,15 +221,30 @@ def r2(ctx, F, eff):
         ctx.missing('C04.R2', 'run_remote effect sites (found %d)' % n)
 
 
+# roles of the entry points' parameters by POSITION (names in the source are free to change)
+ROLE_BY_SLOT = {
+    RUN_LOCAL: {1: 'src', 2: 'dst'},
+    RUN_REMOTE: {1: 'dir', 2: 'host', 3: 'remote_root', 4: 'local_root'},
+}
+
+
+def canon(F, body, name):
+    """canonical role of a parameter (or captured parameter) called `name` in `body`'s enclosing entry point"""
+    top = body.path.split('::{')[0]
+    tb = F.body(top)
+    slot = param_index(tb, name) if (tb is not None and name) else None
+    return ROLE_BY_SLOT.get(top, {}).get(slot, name)
+
+
 def root_of(F, body, o, depth=0):
     """Name(s) of the fn parameter(s) a path origin is rooted at."""
     fl = flow_of(body)
     if depth > 6:
         return {'?'}
     if o.kind == 'param':
-        return {body.local_name(o.key) or '?'}
+        return {canon(F, body, body.local_name(o.key)) or '?'}
     if o.kind == 'upvar':
-        return {body.upvars.get(int(o.key), '?') if o.key is not None else '?'}
+        return {canon(F, body, body.upvars.get(int(o.key), '?')) if o.key is not None else '?'}
     if o.kind == 'call' and o.key in ('std::path::Path::join', 'incremental::tmp_path', 'std::path::Path::parent'):
         out = set()
         for pb, x in capture_origins(F, body, body.blocks[o.bb]['term']['args'][0]):
